@@ -6,8 +6,10 @@ SECTIONS = [b"A", b"[A]", b"B", b"", None, b"[B]", b"[]", b"[A", b"C]", b"AB", b
             b"S" * 255, b"[" + b"S" * 255 + b"]", b"T" * 300, b"[" + b"T" * 300 + b"]"]
 KEYS = [b"x", b"y", b"z", b"w", b"", None, b"xy", b"X", b"x ", b"y\t", b" x", b"K" * 300]   # "x ", "y\t", " x": blanks around a key handed to a setter or getter are part of the key; the last one: a long key
 TEXTS = [b"1", b"v", b"", b"Yes Please", b"TRUE", b"no", b"0x10", b"-5", b"4294967296", b" padded ", b"a\nb", b'"q"',
-         b"_none_", b"p-", b"010", b"12abc", None, b'  "hello world"', b'\t"q r" tail']
-INTS = ["0", "1", "-1", "2147483647", "-2147483648", "42"]
+         b"_none_", b"p-", b"010", b"12abc", None, b'  "hello world"', b'\t"q r" tail',
+         # other spellings of numbers the typed setters are given: the text stored afterwards is the setter's
+         b"+42", b"052", b"0x2A", b" 42", b"-0", b"00", b"8", b"16"]
+INTS = ["0", "1", "-1", "2147483647", "-2147483648", "42", "8", "16", "-5"]
 UINTS = ["0", "1", "4294967295", "42"]
 I64 = ["0", "-9223372036854775808", "9223372036854775807", "-7"]
 U64 = ["0", "18446744073709551615", "7"]
